@@ -290,6 +290,21 @@ C15_UNITS_THOROUGH = ['C12', 'C13', 'C04', 'C01', 'C02', 'C09', 'C10']
 C15_QUICK_CONFIGS = 8          # the first n configurations in the quick tier
 
 
+def canon_run_line(l):
+    """a result line `R unit f32|f64|i32|u32 in… -> out…` with every NaN output mapped to one token: which of the
+    operands' NaN payloads/signs an x86 instruction propagates depends on operand order, which inlining and the
+    optimiser may legitimately change; the property is about values, and all NaNs are the same value"""
+    t = l.split()
+    if len(t) < 4 or t[0] != 'R' or '->' not in t or t[2] not in ('f32', 'f64'): return l
+    k = t.index('->')
+    def c(x):
+        try: v = int(x)
+        except ValueError: return x
+        if t[2] == 'f32': return 'nan' if (v & 0x7fffffff) > 0x7f800000 else x
+        return 'nan' if (v & 0x7fffffffffffffff) > 0x7ff0000000000000 else x
+    return ' '.join(t[:k + 1] + [c(x) for x in t[k + 1:]])
+
+
 def run_cfg(prop, tier, seed):
     t0 = time.time()
     for old in glob.glob(os.path.join(REPLAYS, prop + '-*.json')): os.remove(old)
@@ -324,7 +339,7 @@ def run_cfg(prop, tier, seed):
             # results on concrete inputs must be bit-identical as well (and this finds the witness when models differ)
             runc = os.path.join(CACHE, 'C15_%s_%s.run' % (uf, cname))
             run_bins(binsc, ['run', str(seed), '40'], runc)
-            a = open(run0).read().split('\n'); b = open(runc).read().split('\n')
+            a = [canon_run_line(l) for l in open(run0).read().split('\n')]; b = [canon_run_line(l) for l in open(runc).read().split('\n')]
             runs_compared += len(a)
             witness = None
             for la, lb in zip(a, b):
@@ -345,7 +360,7 @@ def run_cfg(prop, tier, seed):
                 if erro: unexplained.append('build %s %s failed' % (uf, opt)); continue
                 ro = os.path.join(CACHE, 'C15_%s_%s.run' % (uf, opt[1:]))
                 run_bins(binso, ['run', str(seed), '200'], ro)
-                txt = open(ro).read()
+                txt = '\n'.join(canon_run_line(l) for l in open(ro).read().split('\n'))
                 runs_compared += txt.count('\n')
                 if ref is None: ref = txt
                 elif txt != ref:
